@@ -3,6 +3,7 @@ import BqVerif.Proofs.RulesParam
 import BqVerif.Proofs.RulesComplex
 import BqVerif.Proofs.Accept
 import BqVerif.Proofs.Structural
+import BqVerif.Proofs.Walsh
 /-! # C10 — every circuit-rewriting pass preserves its target within stated tolerance
 
 Four classes (DESIGN.md §4 C10, design_notes/C10.md):
@@ -234,5 +235,37 @@ open BqVerif.Circ in
 example : den (M := Nat) (fun o => o.gid) ([] ++ (⟨6, [], [0], [2]⟩ : Op) :: []) =
     den (fun o => o.gid) ([] ++ ⟨2, [], [0], [2]⟩ :: ⟨3, [], [0], [2]⟩ :: []) :=
   C10_structural_merge _ _ _ _ _ _ (by decide)
+
+/-! ### Walsh diagonal synthesis: the CNOT ladder of `pauli_to_subcircuit` -/
+
+open BqVerif.Walsh in
+/-- After the ladder CNOT(l₀,l₁), CNOT(l₁,l₂), … the last location holds the parity of the Pauli-Z
+string's support, so the RZ placed there multiplies |x⟩ by e^{∓iθ/2} according to that parity. -/
+theorem C10_walsh_parity (locs : List Nat) (hne : locs ≠ []) (hnd : locs.Nodup) (x : Bits) :
+    ladder (pairs locs) x (locs.getLast hne) = parity locs x := ladder_parity locs hne hnd x
+
+open BqVerif.Walsh in
+example : ladder (pairs [0, 2, 3]) (fun q => q == 0 || q == 3) 3 = false :=
+  (C10_walsh_parity [0, 2, 3] (by simp) (by decide) _).trans (by decide)
+
+open BqVerif.Walsh in
+/-- The reversed ladder restores the basis state: the sub-circuit is diagonal. -/
+theorem C10_walsh_restore (locs : List Nat) (hnd : locs.Nodup) (x : Bits) :
+    ladder (pairs locs).reverse (ladder (pairs locs) x) = x :=
+  ladder_restore _ (pairs_ne locs hnd) x
+
+open BqVerif.Walsh in
+example : ladder (pairs [1, 0]).reverse (ladder (pairs [1, 0]) (fun q => q == 1)) =
+    (fun q => q == 1) := C10_walsh_restore [1, 0] (by decide) _
+
+open BqVerif.Walsh in
+/-- Qubits outside the support are never written. -/
+theorem C10_walsh_outside (locs : List Nat) (x : Bits) (q : Nat) (hq : q ∉ locs) :
+    ladder (pairs locs) x q = x q :=
+  ladder_outside _ x q (fun p hp e => hq (e ▸ pairs_snd_mem locs p hp))
+
+open BqVerif.Walsh in
+example : ladder (pairs [0, 2]) (fun _ => true) 1 = true :=
+  C10_walsh_outside [0, 2] _ 1 (by decide)
 
 end BqVerif.C10
